@@ -120,8 +120,8 @@ func (l *Lexer) scanToken() error {
 		}
 	case '/':
 		if l.match('/') {
-			// Line comment
-			for l.peek() != '\n' && !l.isAtEnd() {
+			// Line comment: runs to the next WGSL line break (not only LF)
+			for !isLineBreak(l.peek()) && !l.isAtEnd() {
 				l.advance()
 			}
 		} else if l.match('*') {
@@ -186,8 +186,8 @@ func (l *Lexer) scanToken() error {
 		}
 
 	// Whitespace
-	case ' ', '\r', '\t':
-		// Ignore whitespace
+	case ' ', '\r', '\t', '\v', '\f', 0x85, 0x200E, 0x200F, 0x2028, 0x2029:
+		// Ignore whitespace (the full WGSL blankspace set)
 	case '\n':
 		l.line++
 		l.column = 1
@@ -203,6 +203,16 @@ func (l *Lexer) scanToken() error {
 	}
 
 	return nil
+}
+
+// isLineBreak reports whether r starts a WGSL line break:
+// LF, VT, FF, CR, NEL (U+0085), LS (U+2028), PS (U+2029).
+func isLineBreak(r rune) bool {
+	switch r {
+	case '\n', '\v', '\f', '\r', 0x85, 0x2028, 0x2029:
+		return true
+	}
+	return false
 }
 
 func (l *Lexer) blockComment() {
